@@ -20,3 +20,34 @@ contract(F + "Alignment.disorder#lazy", params={"self": ALIGN()}, returns=RealT(
                   cl("result * (toreal(NumUnits(CC())) / Nkeys(CC())) == rpsum(lam(t, some(L()[t]._disorder)), len(L()))", "C03",
                      name="sum-of-the-carried-unitary-disorders-over-the-mean-number-of-units")],
          serves={"C03"})
+
+# ---- detached alignments (no continuum): the mean number of units per annotator is counted on the unitary alignments themselves
+_MD = [Macro("L", [], "self.unitary_alignments"),
+       Macro("nreal", ["t"], "psum(lam(k, ite(isnone(L()[t]._n_tuple[k][1]), 0, 1)), len(L()[t]._n_tuple))")]
+from pyvc.contract import IntT   # noqa: E402
+contract(F + "UnitaryAlignment.nb_units#value", params={"self": UAT()}, returns=IntT(), is_property=True, modifies=[], inline_result=True,
+         ensures=[cl("result == psum(lam(k, ite(isnone(self._n_tuple[k][1]), 0, 1)), len(self._n_tuple))", "C03", name="number-of-real-units")],
+         serves={"C03"})
+contract(F + "Alignment.avg_num_annotations_per_annotator#detached", params={"self": ALIGN()}, returns=RealT(), is_property=True, modifies=[],
+         macros=_MD,
+         calls={"unitary_alignment.nb_units": F + "UnitaryAlignment.nb_units#value"},
+         requires=["isnone(self.continuum)", "len(L()) >= 1"],
+         raises={"ZeroDivisionError": {"iff": "len(L()[0]._n_tuple) == 0"}},
+         ensures=[cl("result * len(L()[0]._n_tuple) == psum(lam(t, nreal(t)), len(L()))", "C03",
+                     name="real-units-of-the-unitary-alignments-over-the-number-of-annotators")],
+         serves={"C03"})
+contract(F + "Alignment.disorder#lazy-detached", params={"self": ALIGN()}, returns=RealT(), is_property=True, modifies=["self._disorder"],
+         macros=_MD,
+         calls={"self.avg_num_annotations_per_annotator": F + "Alignment.avg_num_annotations_per_annotator#detached",
+                "u_align.disorder": F + "UnitaryAlignment.disorder#value"},
+         requires=["isnone(self._disorder)", "isnone(self.continuum)", "len(L()) >= 1", "len(L()[0]._n_tuple) >= 1",
+                   "psum(lam(t, nreal(t)), len(L())) >= 1",
+                   "forall(t, 0, len(L()), not isnone(L()[t]._disorder))"],
+         ensures=[cl("not isnone(self._disorder) and some(self._disorder) == result", "C03", name="the-value-is-memoised"),
+                  cl("result * psum(lam(t, nreal(t)), len(L())) == rpsum(lam(t, some(L()[t]._disorder)), len(L())) * len(L()[0]._n_tuple)", "C03",
+                     name="sum-of-the-carried-unitary-disorders-over-real-units-per-annotator")],
+         serves={"C03"})
+contract(F + "Alignment.num_annotators", params={"self": ALIGN()}, returns=IntT(), is_property=True, modifies=[],
+         requires=["len(self.unitary_alignments) >= 1"],
+         ensures=[cl("result == len(self.unitary_alignments[0]._n_tuple)", "C03", name="arity-of-the-first-unitary-alignment")],
+         serves={"C03"})
